@@ -572,4 +572,35 @@ def firstWord (n : String) : String :=
 /-- the tagging of `exp.expand` as `to_node` sees it -/
 def expandTag (n : String) : Option String := some (firstWord n)
 
+
+/-! ### lexical visibility of CTE names while the scopes are built
+    (sqlglot/optimizer/scope.py: `Scope.branch` hands every child scope its own copy of the parent's `cte_sources`;
+    `_traverse_ctes` adds a scope's own WITH to that mapping IN PLACE)
+
+A parent scope whose mapping is `E` (what it inherited plus its own WITH) branches its derived tables and subqueries
+in order, each WITHOUT extra CTEs; child `i` then adds the names of its own nested WITH (`sibs[i]`).
+`copies = true`: every child starts from a copy of `E`.  `copies = false` (the shared-dict variant): a child is handed
+the parent's dict itself unless that dict is empty (an empty mapping is replaced by a fresh one in `Scope.__init__`),
+so its in-place update is seen by the parent's mapping and by every child branched later. -/
+
+abbrev CteEnv := List (String × Nat)
+
+def envGet (n : String) : CteEnv → Option Nat
+  | [] => none
+  | (a, i) :: rest => if a = n then some i else envGet n rest
+
+/-- the parent's mapping after a child with own definitions `own` has been traversed (`dict.update`: own entries win) -/
+def afterChild (copies : Bool) (E own : CteEnv) : CteEnv :=
+  if copies || E.isEmpty then E else own ++ E
+
+/-- the parent's mapping at the moment child `i` is branched -/
+def parentEnvAt (copies : Bool) : CteEnv → List CteEnv → Nat → CteEnv
+  | E, _, 0 => E
+  | E, [], _ + 1 => E
+  | E, own :: rest, i + 1 => parentEnvAt copies (afterChild copies E own) rest i
+
+/-- what child `i` resolves the name `n` to: its own WITH over what it was handed -/
+def cteVisible (copies : Bool) (E : CteEnv) (sibs : List CteEnv) (i : Nat) (n : String) : Option Nat :=
+  envGet n ((sibs[i]?).getD [] ++ parentEnvAt copies E sibs i)
+
 end SqlglotModel.Lineage
